@@ -71,14 +71,6 @@ section generic
 variable {κ : Type} {cfg : Cfg κ} {enc : List Bytes → Bytes} (S : CompSpec cfg.comp enc)
   {k0 : κ} {os0 : OS} {script : List Api}
 
-theorem qInv_reachable {s : St κ} (hr : (machine cfg k0 os0 script).Reachable s) : QInv s :=
-  Machine.invariant (machine cfg k0 os0 script) QInv (qInv_init script)
-    (fun _ _ _ _ hi hs => by
-      rcases step_cases hs with h | h | h
-      · exact qInv_prod hi h
-      · exact qInv_wt hi h
-      · exact qInv_worker hi h) s hr
-
 /-- **close_ok_implies_complete** (any compressor satisfying its contract, all interleavings):
     if the first call that did anything but quietly succeed is a `close()` that RETURNED n,
     then no error response was ever delivered by the OS, the file is the encoding of the
@@ -284,28 +276,6 @@ theorem close_ok_all_handed_over_refuted : ¬ CloseOkMeansAllHandedOver := by
   have := h false emptyBlockScript emptyBlockRun emptyBlockRun_reachable none {} 2 (by decide +kernel)
   revert this
   decide +kernel
-
-theorem split_at_first_empty : ∀ (xs ys : List Bytes) (tail : List Res),
-    (∀ b ∈ xs, b ≠ []) → (∀ b ∈ ys, b ≠ []) →
-    xs.map Res.data ++ [Res.data []] = ys.map Res.data ++ Res.data [] :: tail → xs = ys := by
-  intro xs
-  induction xs with
-  | nil =>
-    intro ys tail _ hy h
-    cases ys with
-    | nil => rfl
-    | cons y ys => simp at h
-  | cons x xs ih =>
-    intro ys tail hx hy h
-    cases ys with
-    | nil =>
-      simp at h
-      exact absurd h.1 (hx x (by simp))
-    | cons y ys =>
-      simp at h
-      obtain ⟨rfl, h⟩ := h
-      rw [ih ys tail (fun b hb => hx b (List.mem_cons_of_mem _ hb))
-        (fun b hb => hy b (List.mem_cons_of_mem _ hb)) (by simpa using h)]
 
 /-- What IS proved instead (`close_ok_implies_complete`): the file holds exactly the blocks
     handed over before the first empty one.  If no block handed over before the `close()`
